@@ -72,7 +72,8 @@ func mixedGovChange(e *Env, r *fw.Rand) {
 	case 1, 2:
 		regGovChange(e, r, "")
 	default:
-		vf := []string{"0", "0.01", "0.5", "1", "0.333333333333333333", "0.000000000000000001"}
+		// (the last three are not in [0,1]: the proposal must not get through)
+		vf := []string{"0", "0.01", "0.5", "1", "0.333333333333333333", "0.000000000000000001", "1.005", "1.000000000000000001", "1.009999999999999999"}
 		p := streamtypes.Params{ValidatorFee: sdk.MustNewDecFromStr(vf[r.Intn(len(vf))])}
 		e.Gov("stream fee="+p.ValidatorFee.String(), &streamtypes.MsgUpdateParams{Authority: lab.GovAuthority(), Params: p})
 	}
